@@ -146,11 +146,11 @@ theorem finishRec_ok_eq (env : Env) (w : World) (h : Nat) (a : Act) (ha : w.acts
 theorem finishRec_err_eq (env : Env) (w : World) (h : Nat) (a : Act) (e : Exc) (ha : w.acts[h]? = some a)
     (hf : a.finished = false) :
     w.finishRec env h (some e) =
-      (((World.getFields env FUEL (w.setFin h a) e).1.clock.1.nextLevel h).1).loggerWrite env
-        ((((((((World.getFields env FUEL (w.setFin h a) e).2.set "exception" (.str (e.qual env))).set "reason"
+      (((World.getFields env (w.setFin h a) e).1.clock.1.nextLevel h).1).loggerWrite env
+        ((((((((World.getFields env (w.setFin h a) e).2.set "exception" (.str (e.qual env))).set "reason"
           (.str (e.safeStr env))).set "action_status" (.str "failed")).set "timestamp"
-          (.ts (World.getFields env FUEL (w.setFin h a) e).1.tick)).set "task_uuid" (.uuid a.uuid)).set "action_type"
-          (.str a.atype)).set "task_level" (.lvl ((World.getFields env FUEL (w.setFin h a) e).1.clock.1.nextLevel h).2))
+          (.ts (World.getFields env (w.setFin h a) e).1.tick)).set "task_uuid" (.uuid a.uuid)).set "action_type"
+          (.str a.atype)).set "task_level" (.lvl ((World.getFields env (w.setFin h a) e).1.clock.1.nextLevel h).2))
         (a.sers.map (fun _ => [])) := by
   simp only [World.finishRec, ha, hf]
   rfl
@@ -173,8 +173,8 @@ theorem finishRec_sets_finished (env : Env) (w : World) (h : Nat) (exc : Option 
     | some e =>
       rw [finishRec_err_eq env w h a e ha hf]
       have f : ∀ (m : Msg) (s : Option (List (String × Nat))), Frame (w.setFin h a)
-          (((World.getFields env FUEL (w.setFin h a) e).1.clock.1.nextLevel h).1.loggerWrite env m s) := fun m s =>
-        (frame_getFields env FUEL (w.setFin h a) e).trans ((frame_clock _).trans ((frame_nextLevel _ h).trans
+          (((World.getFields env (w.setFin h a) e).1.clock.1.nextLevel h).1.loggerWrite env m s) := fun m s =>
+        (frame_getFields env (w.setFin h a) e).trans ((frame_clock _).trans ((frame_nextLevel _ h).trans
           (frame_loggerWrite env _ m s)))
       obtain ⟨a', h1, h2, h3, _, h5, _⟩ := (f _ _).keep h _ h0
       exact ⟨a', h1, h5 rfl, h2, h3⟩
